@@ -20,6 +20,7 @@ import sys
 import time
 import traceback
 
+import simcore
 from simcore import (VERIF, Rng, derive_seed, disable_aslr, ensure_build, make_scratch)
 
 REAL_CODE = ["all of e2fsprogs built from /repo's working tree (tools, libext2fs incl. unix_io cache and undo_io, "
@@ -110,7 +111,7 @@ def _execute_spec(check, spec, tag):
         if os.environ.get("VERIF_KEEP"):
             sys.stderr.write("kept scratch directory %s\n" % wd)
         else:
-            shutil.rmtree(wd, ignore_errors=True)
+            simcore.rmtree(wd)
 
 
 def _run_index(args):
